@@ -398,11 +398,33 @@ pub fn run_case(sc: &Scenario, mode: &Mode) -> CaseOut {
             }
         }
         if let Some(w2) = w15.as_mut() {
+            let pre15 = w2.clone();
             let r2 = safe_eval(w2, plan, &plan.sched, &plain);
             out.evals += 1;
             let e1 = res.violations.iter().find(|v| v.prop == "C06").map(|v| v.clause.clone());
             let e2 = r2.violations.iter().find(|v| v.prop == "C06").map(|v| v.clause.clone());
-            if e1 != e2 {
+            let differs = e1 != e2 || r2.eco != res.eco || (r2.engine_error.is_none() && res.engine_error.is_none() && r2.disp != res.disp);
+            let mut explained = false;
+            if differs && (!res.failed.is_empty() || !r2.failed.is_empty() || res.aborted) {
+                // With a failure or an abort in the evaluation the engine's own hash iteration order
+                // can change the outcome under one and the same choice stream (when a job is first
+                // offered varies from run to run on the unchanged tree): a difference counts only if no
+                // repetition of the noisy run ends like a repetition of the noise-free one.
+                let key = |r: &EvalOut| (r.disp.clone(), r.eco.clone(), r.violations.iter().find(|v| v.prop == "C06").map(|v| v.clause.clone()));
+                let mut noisy = vec![key(&res)];
+                let mut quiet = vec![key(&r2)];
+                for _ in 0..10 {
+                    let mut wa = pre.clone();
+                    noisy.push(key(&safe_eval(&mut wa, plan, &plan.sched, &plain)));
+                    let mut wb = pre15.clone();
+                    quiet.push(key(&safe_eval(&mut wb, plan, &plan.sched, &plain)));
+                    out.evals += 2;
+                }
+                explained = noisy.iter().any(|k| quiet.contains(k));
+            }
+            if explained {
+                out.add("c15_twin_differences_explained_by_engine_nondeterminism", 1);
+            } else if e1 != e2 {
                 vs.push(Violation { prop: "C15", clause: "error-depends-on-textual-noise".into(), detail: format!("with stamps {:?}, without {:?}", e1, e2) });
             } else if r2.eco != res.eco {
                 vs.push(Violation { prop: "C15", clause: "changed-output-error-depends-on-textual-noise".into(), detail: format!("with stamps {:?}, without {:?}", res.eco, r2.eco) });
@@ -411,8 +433,9 @@ pub fn run_case(sc: &Scenario, mode: &Mode) -> CaseOut {
                 let extra = res.executed.iter().any(|j| !r2.executed.contains(j));
                 vs.push(Violation { prop: "C15", clause: if extra { "job-executed-because-of-textual-noise".into() } else { "dispositions-depend-on-textual-noise".to_string() }, detail: format!("{:?}", diff) });
             }
-            match (&r2.new_history, r2.engine_error.is_none()) {
+            match (&r2.new_history, r2.engine_error.is_none() && !explained) {
                 (Some(h), true) => w2.history = h.clone(),
+                // (after an explained difference the two chains are no longer in lock step)
                 _ => w15 = None,
             }
         }
